@@ -86,12 +86,12 @@ func funcKey(fn *ssa.Function) string {
 			star = "*"
 		}
 		tn := typeKey(rt)
-		if i := strings.LastIndex(tn, "."); i >= 0 {
-			tn = tn[i+1:]
-		}
-		// drop type arguments
+		// drop type arguments (they contain dots of their own)
 		if i := strings.Index(tn, "["); i >= 0 {
 			tn = tn[:i]
+		}
+		if i := strings.LastIndex(tn, "."); i >= 0 {
+			tn = tn[i+1:]
 		}
 		return fmt.Sprintf("%s.(%s%s).%s", pk, star, tn, name)
 	}
